@@ -17,6 +17,7 @@ from . import rules_opts as RO
 from . import rules_order as ROR
 from . import rules_r6 as R6
 from . import rules_r6b as R6B
+from . import rules_r10 as R10
 from . import rules_read as RD
 from . import rules_reader as RRD
 from . import rules_repr as RR2
@@ -85,6 +86,7 @@ def scan_reference(ctx, repo):
     ctx.call(R6B.r_flow_scalar_first_chunk, repo)
     ctx.call(R6B.r_checked_classes_unrelated, repo)
     ctx.call(R6B.r_need_more_tokens_pure, repo)
+    ctx.call(R10.r_simple_key_settled, repo)
     ctx.call(RD.r_loop_progress, repo)
     ctx.call(R6B.r_block_increment_relative, repo)
 
